@@ -71,6 +71,7 @@ type transaction struct {
 	readOnly bool
 	b        *batch
 	l        *LevelDB
+	snap     *leveldb.Snapshot // read transactions only
 
 	cache map[db.BucketMeta]*levelBucket
 }
@@ -162,12 +163,35 @@ func (l *LevelDB) BeginTx() (db.DBTransaction, error) {
 }
 
 // BeginReadTx ...
+// A read transaction reads from a snapshot taken here, so that everything it
+// reads belongs to one committed state even while write transactions commit.
 func (l *LevelDB) BeginReadTx() (db.ReadTransaction, error) {
+	snap, err := l.ldb.GetSnapshot()
+	if err != nil {
+		return nil, err
+	}
 	return &transaction{
 		readOnly: true,
 		l:        l,
+		snap:     snap,
 		cache:    make(map[db.BucketMeta]*levelBucket),
 	}, nil
+}
+
+// dbGet reads a key of the committed data as this transaction sees it.
+func (tx *transaction) dbGet(key []byte) ([]byte, error) {
+	if tx.snap != nil {
+		return tx.snap.Get(key, nil)
+	}
+	return tx.l.ldb.Get(key, nil)
+}
+
+// dbIter iterates over the committed data as this transaction sees it.
+func (tx *transaction) dbIter(slice *util.Range) iterator.Iterator {
+	if tx.snap != nil {
+		return tx.snap.NewIterator(slice, nil)
+	}
+	return tx.l.ldb.NewIterator(slice, nil)
 }
 
 // TopLevelBucket ...
@@ -194,7 +218,7 @@ func (tx *transaction) BucketNames() (names []string, err error) {
 
 	prefix := []byte(joinBucketPath(bucketNameBucket, topLevelBucketDepth, ""))
 
-	iter := tx.l.ldb.NewIterator(util.BytesPrefix(prefix), nil)
+	iter := tx.dbIter(util.BytesPrefix(prefix))
 	defer iter.Release()
 
 	names = make([]string, 0)
@@ -283,7 +307,7 @@ func (tx *transaction) bucketExists(key []byte) bool {
 			return true
 		}
 	}
-	_, err := tx.l.ldb.Get(key, nil)
+	_, err := tx.dbGet(key)
 	return err == nil
 }
 
@@ -300,7 +324,7 @@ func (tx *transaction) CreateTopLevelBucket(name string) (db.Bucket, error) {
 	bucketPath := joinBucketPath(topLevelBucketDepth, name)
 	key := []byte(joinBucketPath(bucketNameBucket, bucketPath))
 
-	_, err := tx.l.ldb.Get(key, nil)
+	_, err := tx.dbGet(key)
 	if err == nil {
 		_, deleted := tx.b.Get(key)
 		if !deleted {
@@ -339,6 +363,9 @@ func (tx *transaction) DeleteTopLevelBucket(name string) error {
 func (tx *transaction) Rollback() error {
 	if !tx.readOnly {
 		tx.l.muTr.Unlock()
+	} else if tx.snap != nil {
+		tx.snap.Release()
+		tx.snap = nil
 	}
 	return nil
 }
@@ -374,7 +401,7 @@ func (b *levelBucket) NewBucket(name string) (db.Bucket, error) {
 	}
 
 	key := []byte(joinBucketPath(bucketNameBucket, sub.path))
-	_, err = b.tx.l.ldb.Get(key, nil) // value == name
+	_, err = b.tx.dbGet(key) // value == name
 	if err == nil {
 		_, deleted := b.tx.b.Get(key)
 		if !deleted {
@@ -455,7 +482,7 @@ func (b *levelBucket) BucketNames() (names []string, err error) {
 	ss = append(ss, "")
 	prefix := []byte(joinBucketPath(bucketNameBucket, joinBucketPath(ss...)))
 
-	iter := b.tx.l.ldb.NewIterator(util.BytesPrefix(prefix), nil)
+	iter := b.tx.dbIter(util.BytesPrefix(prefix))
 	defer iter.Release()
 
 	names = make([]string, 0)
@@ -538,7 +565,7 @@ func deleteBucket(b *levelBucket) error {
 
 	// delete k/v in bucket
 	prefix := []byte(joinBucketPath(b.path, ""))
-	iter := b.tx.l.ldb.NewIterator(util.BytesPrefix(prefix), nil)
+	iter := b.tx.dbIter(util.BytesPrefix(prefix))
 	for iter.Next() {
 		_, deleted := b.tx.b.Get(iter.Key())
 		if deleted {
@@ -598,7 +625,7 @@ func (b *levelBucket) Get(key []byte) ([]byte, error) {
 		return nil, nil
 	}
 
-	value, err := b.tx.l.ldb.Get(key, nil)
+	value, err := b.tx.dbGet(key)
 	if err != nil {
 		if err == leveldb.ErrNotFound {
 			if b.tx.readOnly {
@@ -642,7 +669,7 @@ func (b *levelBucket) Clear() error {
 	}
 	prefix := []byte(joinBucketPath(b.path, ""))
 
-	iter := b.tx.l.ldb.NewIterator(util.BytesPrefix(prefix), nil)
+	iter := b.tx.dbIter(util.BytesPrefix(prefix))
 	defer iter.Release()
 
 	for iter.Next() {
@@ -674,7 +701,7 @@ func (b *levelBucket) GetByPrefix(prefix []byte) ([]*db.Entry, error) {
 	entries := make([]*db.Entry, 0)
 	set := make(map[string]struct{})
 
-	iter := b.tx.l.ldb.NewIterator(util.BytesPrefix(innerPrefix), nil)
+	iter := b.tx.dbIter(util.BytesPrefix(innerPrefix))
 	defer iter.Release()
 
 	for iter.Next() {
@@ -884,10 +911,10 @@ func (b *levelBucket) NewIterator(slice *db.Range) db.Iterator {
 		b:       b,
 		slice:   slice,
 		iterEnd: false,
-		iter: b.tx.l.ldb.NewIterator(&util.Range{
+		iter: b.tx.dbIter(&util.Range{
 			Start: slice.Start,
 			Limit: slice.Limit,
-		}, nil),
+		}),
 	}
 	if !b.tx.readOnly {
 		it.batchIter = newBatchIterator(b.tx.b, slice.Start, slice.Limit)
